@@ -194,7 +194,7 @@ def run(unit, seed=0, rlimit=None, extra=None, only_fn=None, multiple_errors=8):
     res["function_breakdown"] = fb
     if vr.get("encountered-vir-error") or (p.returncode != 0 and not diags):
         res["status"] = "tool-error"
-        res["undecided"].append("verus error without diagnostics: " + p.stderr[-2000:])
+        res["undecided"].append("verus error without diagnostics: " + " | ".join(d["message"] for d in diags)[:400] + p.stderr[-300:])
     for d in diags:
         msg = d["message"]
         low = msg.lower()
@@ -232,7 +232,7 @@ def run(unit, seed=0, rlimit=None, extra=None, only_fn=None, multiple_errors=8):
                 if ff is not None:
                     cl = [k for k, v in obs.items() if v["fn"] == ff["qname"] and v["kind"] == "clause"]
                     if cl:
-                        ob = cl[0]
+                        ob = cl[-1]
                         break
         f = None
         if ob is None:
@@ -252,9 +252,33 @@ def run(unit, seed=0, rlimit=None, extra=None, only_fn=None, multiple_errors=8):
                     ob = f"{unit}/{f['qname']}::safety"
                 else:
                     ob = f"{unit}/{f['qname']}::lemma"
+        # a failing step of an inserted proof (lemma precondition, overflow in ghost arithmetic) is a failure of the clause it serves
+        if ob is not None and ob.endswith("::safety") and line and line - 1 < len(meta["origin"]) and meta["origin"][line - 1].startswith("contracts/"):
+            ff = enclosing_fn(meta, line)
+            if ff is not None:
+                cl = [k for k, v in obs.items() if v["fn"] == ff["qname"] and v["kind"] == "clause"]
+                if cl:
+                    ob = cl[-1]
         if ob is None:
             res["status"] = "tool-error"
             res["undecided"].append(f"cannot attribute: {msg} (line {line})")
+            continue
+        # a loop that the contract file does not annotate cannot be judged: Verus knows nothing after it.
+        # That is "needs contract", not a violation (a harmless recursion -> loop refactoring must not raise an alarm).
+        unannotated = None
+        for it in meta["items"]:
+            g0, g1 = it.get("gen_span", [0, 0])
+            if g0 <= line <= g1 and it.get("loops", 0) > it.get("loops_annotated", 0):
+                unannotated = it
+        if unannotated is None and ob in obs:
+            fl = next((f for f in meta["fns"] if f.get("qname") == obs[ob]["fn"]), None)
+            if fl is not None:
+                for it in meta["items"]:
+                    g0, g1 = it.get("gen_span", [0, 0])
+                    if g0 <= fl["lines"][0] and fl["lines"][1] <= g1 and it.get("loops", 0) > it.get("loops_annotated", 0):
+                        unannotated = it
+        if unannotated is not None:
+            res["undecided"].append(f"{ob}: `{unannotated['path']}` contains {unannotated['loops']} loop(s) but the contract annotates {unannotated['loops_annotated']}: needs a loop invariant, undecided ({msg})")
             continue
         res["failed"].setdefault(ob, []).append(entry)
     if p.returncode != 0 and not res["failed"] and not res["undecided"]:
